@@ -22,6 +22,8 @@ import ClairModel.Proofs.PyMeta
 import ClairModel.Proofs.RpmPkg
 import ClairModel.Proofs.GoBin
 import ClairModel.Proofs.Jar
+import ClairModel.Proofs.RhelRepo
+import ClairModel.Proofs.DistScan
 
 -- every variable of a property statement is bound explicitly: a misspelt name is an error, not a new variable
 set_option autoImplicit false
@@ -817,5 +819,145 @@ theorem jar_bundled_archives_reported (path : Bytes) (ms : List Node) (is : List
 theorem jar_nesting_limit (top : Bool) (base : Bytes) (ms : List Node) : parse 0 top base ms = own base ms := rfl
 
 end jar
+
+/-! ## rhel repository scanner (content manifests) -/
+
+section rhelrepo
+open ClairModel.RhelRepo
+
+/-- A layer with one content manifest: the repositories reported are exactly
+    the CPEs the mapping gives for the listed content sets — every one of them
+    that unbinds (none missing), nothing else (none invented), each once —
+    whatever the mapping and the list (content sets unknown to the mapping,
+    repositories sharing CPEs, repeated content sets). -/
+theorem rhelrepo_exact (m : Mapping) (dir : Nat) (name : Bytes) (rs : List Bytes) :
+    ∃ cs, scan m [⟨dir, name, .sets rs⟩] = .repos cs ∧ cs.Nodup ∧
+      ∀ c, c ∈ cs ↔ ∃ r ∈ rs, ∃ l, lookup m r = some l ∧ (c, true) ∈ l := by
+  refine ⟨cpesOf m rs, ?_, nodup_dedup _, mem_cpesOf m rs⟩
+  simp [scan, globOrder_single]
+
+/-- No manifest, a manifest that is not JSON, or one without content sets: no
+    repositories (and no error). -/
+theorem rhelrepo_nothing_stated (m : Mapping) (dir : Nat) (name : Bytes) :
+    scan m [] = .repos [] ∧ scan m [⟨dir, name, .syntaxError⟩] = .repos [] ∧
+    scan m [⟨dir, name, .sets []⟩] = .repos [] := by
+  refine ⟨rfl, ?_, ?_⟩ <;> simp [scan, globOrder_single, cpesOf, dedup]
+
+/-- The full statement fails for layers with more than one manifest: only the
+    first in `fs.Glob` order is read (recorded finding
+    rhel-repo-first-manifest-only). -/
+theorem rhelrepo_first_manifest_only_counterexample :
+    scan [([1], [([10], true)]), ([2], [([20], true)])]
+      [⟨0, [98], .sets [[2]]⟩, ⟨0, [97], .sets [[1]]⟩] = .repos [[10]] := by
+  decide
+
+end rhelrepo
+
+/-! ## distribution scanners that read release files themselves -/
+
+section distscan
+open ClairModel.DistScan
+
+/-- `etc/redhat-release` as Red Hat writes it — the phrase, optionally `Server`
+    or `Atomic Host`, `release`, the major number, then anything that does not
+    go on with a digit (`.6 (Ootpa)`, ` Beta`) — reports exactly that major
+    release (name, version, CPE `cpe:/o:redhat:enterprise_linux:N`), for every
+    number below 2^63. -/
+theorem rhel_release_file_exact (variant d rest : Bytes)
+    (hv : variant = [] ∨ variant = DistScan.asc "Server " ∨ variant = DistScan.asc "Atomic Host ")
+    (hd : Digits d) (hr : NoDigitHead rest) (hn : natOfDigits d < 9223372036854775808) (o : Option Bytes) :
+    rhelScan false (some (sRhel ++ variant ++ DistScan.asc "release " ++ d ++ rest)) o =
+      .dist (mkRelease (natOfDigits d)) :=
+  rhelScan_redhat_release_first _ _ o (rhelOfFile_release variant d rest hv hd hr hn)
+
+/-- The phrase followed directly by the number (`PRETTY_NAME`,
+    `REDHAT_BUGZILLA_PRODUCT` of os-release) does as well. -/
+theorem rhel_bare_number_exact (d rest : Bytes) (hd : Digits d) (hr : NoDigitHead rest)
+    (hn : natOfDigits d < 9223372036854775808) :
+    rhelOfFile (sRhel ++ d ++ rest) = some (.dist (mkRelease (natOfDigits d))) :=
+  rhelOfFile_bare d rest hd hr hn
+
+/-- A layer with `etc/oracle-release` is not RHEL, whatever its other files say;
+    a redhat-release without the phrase leaves the decision to os-release. -/
+theorem rhel_oracle_and_fallback (a b : Option Bytes) (f g : Bytes) (h : rhelOfFile f = none) :
+    rhelScan true a b = .none ∧
+    rhelScan false (some f) (some g) = (match rhelOfFile g with | some r => r | none => .none) :=
+  ⟨rhelScan_oracle a b, rhelScan_falls_back f g h⟩
+
+/-- A release number that does not fit an int64 is an error of the scan, not a
+    distribution (the only way this scanner fails on file content). -/
+theorem rhel_number_overflow (d rest : Bytes) (hd : Digits d) (hr : NoDigitHead rest)
+    (hn : 9223372036854775808 ≤ natOfDigits d) :
+    rhelOfFile (sRhel ++ DistScan.asc "release " ++ d ++ rest) = some .err :=
+  rhelOfFile_overflow d rest hd hr hn
+
+/-- alpine os-release: `ID=alpine`, `VERSION_ID=<major.minor>.<patch>` → release
+    `<major.minor>` with the file's NAME and PRETTY_NAME; `PRETTY_NAME="Alpine
+    Linux edge"` → release `edge`. Stated on the parsed map; by
+    `osrelease_parse_written_file` the map of a written file holds the last
+    assignment of each key. -/
+theorem alpine_osrelease_exact (m : List (Bytes × Bytes)) (mm patch name pretty : Bytes)
+    (hid : DistScan.get m "ID" = DistScan.asc "alpine") (hv : DistScan.get m "VERSION_ID" = mm ++ 46 :: patch)
+    (hp : 46 ∉ patch) (hname : DistScan.get m "NAME" = name) (hpretty : DistScan.get m "PRETTY_NAME" = pretty) :
+    alpineOfMap m = some { name := name, did := DistScan.asc "alpine",
+                           version := if pretty = edgePretty then DistScan.asc "edge" else mm,
+                           versionId := [], codeName := [], prettyName := pretty, cpe := [] } := by
+  by_cases he : pretty = edgePretty
+  · simp only [he, if_true]
+    exact he ▸ alpineOfMap_edge m mm patch name pretty hid hv hp hname hpretty he
+  · simp only [he, if_false]
+    exact alpineOfMap_release m mm patch name pretty hid hv hp hname hpretty he
+
+/-- alpine `etc/issue` (`Welcome to Alpine Linux 3.18` + newline + anything
+    without another capital A): release `3.18`. -/
+theorem alpine_issue_exact (pre a b rest : Bytes) (hpre : 65 ∉ pre) (ha : Digits a) (hb : Digits b)
+    (hrest : rest = [] ∨ ∃ r, rest = 10 :: r) (hA : 65 ∉ rest) :
+    alpineOfIssue (pre ++ sAlpineLinux ++ a ++ 46 :: b ++ rest) =
+      some { name := DistScan.asc "Alpine Linux", did := DistScan.asc "alpine", version := a ++ 46 :: b,
+             versionId := [], codeName := [], prettyName := DistScan.asc "Alpine Linux v" ++ (a ++ 46 :: b), cpe := [] } :=
+  alpineOfIssue_release_noA pre a b rest hpre ha hb hrest hA
+
+/-- Another distribution's os-release yields nothing from the alpine and debian
+    scanners. -/
+theorem dist_other_id_nothing (m : List (Bytes × Bytes)) :
+    (DistScan.get m "ID" ≠ DistScan.asc "alpine" → alpineOfMap m = none) ∧
+    (DistScan.get m "ID" ≠ DistScan.asc "debian" → debianOfMap m = none) :=
+  ⟨alpineOfMap_other m, debianOfMap_other m⟩
+
+/-- debian os-release: `VERSION_CODENAME` and a numeric `VERSION_ID` are the
+    release; without `VERSION_CODENAME` (Debian 8 and older) the name is the
+    word in parentheses that ends `VERSION`. -/
+theorem debian_release_exact (m : List (Bytes × Bytes)) (name d pre : Bytes)
+    (hid : DistScan.get m "ID" = DistScan.asc "debian") (hv : DistScan.get m "VERSION_ID" = d) (hd : Digits d)
+    (hn : natOfDigits d ≤ 2147483647) (hw : name ≠ [] ∧ ∀ c ∈ name, isLetter c = true)
+    (hc : OsRelease.mapGet m (DistScan.asc "VERSION_CODENAME") = some name ∨
+          (OsRelease.mapGet m (DistScan.asc "VERSION_CODENAME") = none ∧ DistScan.get m "VERSION" = pre ++ 40 :: (name ++ [41]))) :
+    debianOfMap m = some (debianDist name (natOfDigits d)) := by
+  rcases hc with hc | ⟨hc, hver⟩
+  · exact debianOfMap_codename m name d hid hc hw.1 hv hd hn
+  · exact debianOfMap_version_fallback m pre name d hid hc hver hw hv hd hn
+
+/-- ubuntu: the three assignments (`DISTRIB_ID`/`ID`, the release, the code
+    name) once each in any order, values bare or in double quotes, any other
+    lines around them, leave the loop with exactly the stated release and
+    code name; `etc/lsb-release` is preferred over `etc/os-release`. -/
+theorem ubuntu_release_exact (idKey verKey nameKey : Bytes) (hk : KeysOK idKey verKey nameKey) (k1 k2 k3 : UKey)
+    (r1 r2 r3 : Bytes) (n0 n1 n2 n3 : List Bytes) (d12 : k1 ≠ k2) (d13 : k1 ≠ k3) (d23 : k2 ≠ k3)
+    (hn0 : ∀ l ∈ n0, UNeutral idKey verKey nameKey l) (hn1 : ∀ l ∈ n1, UNeutral idKey verKey nameKey l)
+    (hn2 : ∀ l ∈ n2, UNeutral idKey verKey nameKey l) (hn3 : ∀ l ∈ n3, UNeutral idKey verKey nameKey l)
+    (hu : lower (trimQ (valOf .id k1 k2 r1 r2 r3)) = DistScan.asc "ubuntu") :
+    ubuntuLoop idKey verKey nameKey ⟨false, [], []⟩
+      (n0 ++ uLine idKey verKey nameKey k1 r1 :: (n1 ++ uLine idKey verKey nameKey k2 r2 :: (n2 ++ uLine idKey verKey nameKey k3 r3 :: n3))) =
+      some ⟨true, trimQ (valOf .ver k1 k2 r1 r2 r3), trimQ (valOf .name k1 k2 r1 r2 r3)⟩ :=
+  ubuntuLoop_three idKey verKey nameKey hk k1 k2 k3 r1 r2 r3 n0 n1 n2 n3 d12 d13 d23 hn0 hn1 hn2 hn3 hu
+
+/-- Sanity: Ubuntu's own lsb-release. -/
+example : ubuntuScan (some (DistScan.asc "DISTRIB_ID=Ubuntu\nDISTRIB_RELEASE=22.04\nDISTRIB_CODENAME=jammy\nDISTRIB_DESCRIPTION=\"Ubuntu 22.04.3 LTS\"\n")) none =
+    .dist (ubuntuDist (DistScan.asc "22.04") (DistScan.asc "jammy")) := by decide
+
+/-- Sanity: RHEL 8's release file and an Alpine os-release. -/
+example : rhelScan false (some (DistScan.asc "Red Hat Enterprise Linux release 8.6 (Ootpa)\n")) none = .dist (mkRelease 8) := by decide
+
+end distscan
 
 end ClairModel.Props.C02
